@@ -315,7 +315,7 @@ func isSvc(lines []string) bool {
 		t := strings.Fields(l)
 		if len(t) > 0 {
 			switch t[0] {
-			case "srec", "sreg", "sdereg", "supd", "scollect":
+			case "srec", "sreg", "sdereg", "supd", "scollect", "scap", "sgate", "ssync":
 				return true
 			}
 		}
@@ -388,6 +388,18 @@ func Run(args []string) int {
 		// every third service case is a multi-entry configuration (diamonds, direct+published topics)
 		ops := genSvcCase(r.Fork(), 6+r.Intn(40), i%3 == 2)
 		emit(out, fmt.Sprintf("s%d", i), watchdog(out, fmt.Sprintf("s%d", i), ops))
+	}
+	// bounded queues: a gated handler's queue overflows (each case collects more than alert.MinimumEventBufferSize events)
+	ngate := 2
+	if f.Tier == "thorough" {
+		ngate = 4
+	}
+	if f.N < 50 {
+		ngate = 1
+	}
+	for i := 0; i < ngate; i++ {
+		ops := genGateCase(r.Fork())
+		emit(out, fmt.Sprintf("o%d", i), watchdog(out, fmt.Sprintf("o%d", i), ops))
 	}
 	// aggregate handler (wall-clock ticker, short interval): few cases, each waits for real ticks
 	nagg := 8
